@@ -5,7 +5,8 @@
    model of Model.v / ModelSparse.v.  All statements hold for every header,
    every index in Z and every finite composition of view constructors. *)
 From Coq Require Import ZArith List Bool.
-From ADV Require Import C10.Gen C10.Model C10.ModelSparse C10.Spec C10.ProofsIndex C10.ProofsViews C10.ProofsIter C10.ProofsIterSkip C10.ProofsOps C10.ProofsTip C10.ProofsTipGen C10.ProofsOpsView C10.ProofsSparse C10.ProofsSparseT.
+From ADV Require Import C10.Gen C10.Model C10.ModelSparse C10.Spec C10.ProofsIndex C10.ProofsViews C10.ProofsIter C10.ProofsIterSkip C10.ProofsOps C10.ProofsTip C10.ProofsTipGen C10.ProofsOpsView C10.ProofsSparse C10.ProofsSparseT
+                        C10.GenAcc C10.ProofsAcc C10.ProofsPermView C10.ProofsTipAll C10.ProofsTipView.
 Import ListNotations.
 Open Scope Z_scope.
 
@@ -247,17 +248,134 @@ Theorem json_and_asvector_decisions : forall real H (m : mat), wf_in H m ->
   (whole m -> (r <- mAsVector real H m ;; ROk (fst r)) = read_all real H m).
 Proof. intros real H m W. split; [exact (json_is_repacked real H m W) | exact (asvector_whole real H m W)]. Qed.
 
+(* ---- 6c. in-place PERMUTING writes on a view = the operation on a deep copy, then copied back ----
+   Swap, SwapRows, SwapColumns, PermuteRows / PermuteColumns / SymmetricPermutation (interchange sequence as
+   coded, error flag included), MdotM with the VIEW as receiver (view.MdotM(view, f): row-wise schedule,
+   view.MdotM(f, view): column-wise schedule chosen by the storageLocation test, view.MdotM(a, b)).
+   For EVERY well-formed view and every argument (also out-of-range ones: both sides panic alike):
+   same error outcome; afterwards the view holds exactly the elements the operation gives an independent deep
+   copy; every storage cell the view does not denote and every other storage keeps its content (frame); and the
+   resulting heap IS the heap obtained by writing the copy's elements back through the view (fill). *)
+Theorem op_on_view_equals_op_on_copy_then_copy_back : forall real H (m : mat), wf_in H m ->
+  exists H' c, deep_copy real H m = ROk (H', c) /\ d_values c <> d_values m /\ whole c /\ wf_in H' c /\
+    forall o, perm_op_ok H m o ->
+      relR (fun r r' =>
+              snd r = snd r' /\ wf_in (fst r) m /\ wf_in (fst r') c /\
+              (forall i j, mAT real (fst r) m i j = mAT real (fst r') c i j) /\
+              frame m H (fst r) /\
+              fill real (fun i j => elem real (fst r') c (i, j)) m (mpos real m) H = ROk (fst r))
+           (run_perm real H m o) (run_perm real H' c o).
+Proof. exact perm_on_view_equals_perm_on_copy_then_copy_back. Qed.
+(* ... for every finite composition of Slice / ConstSlice / T over a base matrix b; in addition every element
+   of the parent that the window does not denote keeps its value *)
+Theorem op_on_composed_view_equals_op_on_copy_then_copy_back : forall real H l (b : mat),
+  wf_in H b -> guards l (d_rows b, d_cols b) ->
+  let m := apply_views real b l in
+  exists H' c, deep_copy real H m = ROk (H', c) /\ d_values c <> d_values b /\ whole c /\
+    forall o, perm_op_ok H m o ->
+      relR (fun r r' => perm_result real H m c r r' /\
+              forall i' j', in_range b i' j' -> (forall i j, in_range m i j -> coord l (i, j) <> (i', j')) ->
+                mAT real (fst r) b i' j' = mAT real H b i' j')
+           (run_perm real H m o) (run_perm real H' c o).
+Proof. exact perm_on_composed_view. Qed.
+Example permuting_write_on_view_nontrivial :
+  let H := [[1; 2; 3; 4; 5; 6; 7; 8; 9; 10; 11; 12; 13; 14; 15; 16]; [1; 0; 2; 1]] in
+  let m := apply_views false (new_mat 0 4 4) [VSlice 0 3 1 4; VT; VSlice 0 2 1 3] in
+  wf_in H m /\ perm_op_ok H m (PMdotM_right (new_mat 1 2 2)) /\
+  opt_of (r <- run_perm false H m (PPermute 0 [1; 0]) ;; ROk (store_of (fst r) 0))
+    = Some [1; 2; 3; 4; 5; 7; 6; 8; 9; 11; 10; 12; 13; 14; 15; 16] /\
+  opt_of (r <- run_perm false H m (PMdotM_right (new_mat 1 2 2)) ;; ROk (store_of (fst r) 0))
+    = Some [1; 2; 3; 4; 5; 6; 19; 8; 9; 10; 31; 12; 13; 14; 15; 16].
+Proof. exact perm_on_view_nontrivial. Qed.
+(* run_perm is the model's operation, nothing else *)
+Theorem run_perm_is_the_model : forall real H m i1 j1 i2 j2 i j w pi f,
+  run_perm real H m (PSwapRows i j) = mSwapRows real H m i j /\
+  run_perm real H m (PSwapCols i j) = mSwapCols real H m i j /\
+  run_perm real H m (PPermute w pi) = mPermute real w H m pi /\
+  run_perm real H m (PSwap i1 j1 i2 j2) = (H1 <- mSwap real H m i1 j1 i2 j2 ;; ROk (H1, false)) /\
+  run_perm real H m (PMdotM_left f) = (H1 <- mMdotM real H m m f ;; ROk (H1, false)) /\
+  run_perm real H m (PMdotM_right f) = (H1 <- mMdotM real H m f m ;; ROk (H1, false)).
+Proof. intros. repeat split. Qed.
+
+(* ---- 5b. copy-vs-reference classification of every vector-returning accessor, read off the source ---- *)
+Theorem row_col_diag_accessors_copy : forall t,
+  (AccDenseP.ROW t = Copies /\ AccDenseP.COL t = Copies /\ AccDenseP.DIAG t = Copies /\
+   AccDenseP.Row t = Copies /\ AccDenseP.Col t = Copies /\ AccDenseP.Diag t = Copies /\ AccDenseP.ConstDiag t = Copies) /\
+  (AccDenseR.ROW t = Copies /\ AccDenseR.COL t = Copies /\ AccDenseR.DIAG t = Copies /\
+   AccDenseR.Row t = Copies /\ AccDenseR.Col t = Copies /\ AccDenseR.Diag t = Copies).
+Proof. exact ProofsAcc.row_col_diag_accessors_copy. Qed.
+Theorem const_row_col_alias_only_on_contiguous_direction : forall t,
+  AccDenseP.ConstRow t = (if t then Copies else AliasesStorage) /\
+  AccDenseP.ConstCol t = (if t then AliasesStorage else Copies) /\
+  AccDenseR.ConstRow t = (if t then SharesCells else AliasesStorage) /\
+  AccDenseR.ConstCol t = (if t then AliasesStorage else SharesCells) /\
+  AccDenseR.ConstDiag t = SharesCells /\
+  AccDenseP.AsVector t = AliasesStorage /\ AccDenseP.AsConstVector t = AliasesStorage /\
+  acc_aliases (AccDenseR.AsVector t) = true /\ acc_aliases (AccDenseR.AsConstVector t) = true.
+Proof. exact ProofsAcc.const_row_col_alias_only_on_contiguous_direction. Qed.
+Theorem model_alias_flags_match_source_table : forall real H (m : mat) i l al,
+  (mConstRow real H m i = ROk (l, al) -> al = acc_aliases (acc_family real 6 (d_transposed m))) /\
+  (mConstCol real H m i = ROk (l, al) -> al = acc_aliases (acc_family real 7 (d_transposed m))).
+Proof. exact model_const_flags_match_table. Qed.
+Theorem accessor_table_complete : map fst AccDenseP.table = seq 0 11 /\ map fst AccDenseR.table = seq 0 11.
+Proof. exact ProofsAcc.accessor_table_complete. Qed.
+
 (* ---- 7. Tip ---- *)
 (* Tip on a matrix that owns its whole storage: dimensions exchanged, elements = those of the former T().
-   partial: proved for EVERY storage content (the algorithm is natural in the contents: tip_store_map) on all
-   shapes up to 24 x 24 (finite sweep inside Coq); the induction over the cycles for unbounded shapes is not
-   done.  The number theory it would rest on IS proved for every shape: tip_cycle_map_number_theory below. *)
-Theorem tip_correct_any_contents_upto24_partial : forall real rows cols s, 0 <= rows <= 24 -> 0 <= cols <= 24 ->
+   EVERY shape, EVERY storage content: the cycle-following loop with its visited bookkeeping and the skip test, as
+   coded, by induction over the cycles (ProofsTipAll.v); the fuel of the model's inner loop (mn + 1) is never
+   exhausted (pigeonhole) *)
+Theorem tip_correct_all_shapes_any_contents : forall real rows cols s, 0 <= rows -> 0 <= cols ->
   zlen s = rows * cols ->
   let m := new_mat 0 rows cols in
   exists s' m' l, mTip [s] m = ROk ([s'], m') /\ d_rows m' = cols /\ d_cols m' = rows /\ d_transposed m' = false /\
     read_all real [s'] m' = ROk l /\ read_all real [s] (k_T real m) = ROk l.
-Proof. exact tip_correct_any_contents_upto24. Qed.
+Proof. exact tip_correct_all_shapes. Qed.
+(* the storage permutation itself: cell (i,j) of the rows x cols row-major layout ends up at cell (j,i) of the
+   cols x rows layout *)
+Theorem tip_cycle_loop_moves_every_cell : forall rows cols, 0 <= rows -> 0 <= cols -> forall s, zlen s = rows * cols ->
+  exists s', tip_store rows s = ROk s' /\ zlen s' = rows * cols /\
+    forall i j, 0 <= i < rows -> 0 <= j < cols ->
+      nth (Z.to_nat (j * rows + i)) s' 0 = nth (Z.to_nat (i * cols + j)) s 0.
+Proof. exact tip_store_transposes. Qed.
+(* one cycle of the inner loop, from any unvisited start cell c of a storage of mn cells, for any step map that is
+   an injection of [0, mn) into itself: it terminates when the orbit returns to c (L steps, within the fuel), moves
+   the content of every orbit cell to its image, touches nothing else, and marks exactly the orbit *)
+Theorem tip_inner_loop_follows_one_orbit : forall rows mn,
+  (forall k, inD mn k -> inD mn (tip_next rows mn k)) ->
+  (forall a b, inD mn a -> inD mn b -> tip_next rows mn a = tip_next rows mn b -> a = b) ->
+  forall c s0 vis0, inD mn c -> zlen s0 = mn -> Z.of_nat (length vis0) = mn ->
+  exists vis' s' L, tip_cycle (S (length s0)) rows mn c c vis0 s0 = ROk (vis', s') /\
+    (1 <= L)%nat /\ it rows mn L c = c /\ zlen s' = mn /\
+    (forall u, (u < L)%nat -> zn s' (it rows mn (S u) c) = zn s0 (it rows mn u c)) /\
+    (forall x, inD mn x -> (forall u, (u < L)%nat -> x <> it rows mn u c) -> zn s' x = zn s0 x) /\
+    (forall x, inD mn x -> (bn vis' x = true <-> (bn vis0 x = true \/ exists u, (u < L)%nat /\ x = it rows mn u c))).
+Proof. exact tip_inner_loop_one_orbit. Qed.
+(* Tip on a view = Tip on an independent deep copy, wherever Tip is specified: a transposed view of any window (only
+   the flag is cleared, nothing moves) or a matrix that owns its storage (any heap, any location) *)
+Theorem tip_on_view_equals_tip_on_copy : forall real H (m : mat), wf_in H m -> (d_transposed m = true \/ whole m) ->
+  exists H' c, deep_copy real H m = ROk (H', c) /\
+  exists H1 m1 H1' c1, mTip H m = ROk (H1, m1) /\ mTip H' c = ROk (H1', c1) /\
+    (d_rows m1, d_cols m1) = (d_cols m, d_rows m) /\ (d_rows c1, d_cols c1) = (d_cols m, d_rows m) /\
+    d_transposed m1 = false /\
+    (forall i j, mAT real H1 m1 i j = mAT real H1' c1 i j) /\
+    (forall i j, mAT real H1 m1 i j = mAT real H m j i) /\
+    (forall l, l <> d_values m -> store_of H1 l = store_of H l) /\
+    (d_transposed m = true -> H1 = H).
+Proof. exact ProofsTipView.tip_on_view_equals_tip_on_copy. Qed.
+(* Tip on a NON-transposed proper window permutes the parent's whole storage with the window's row count
+   (proposed finding F-TIP-VIEW): cells outside the window move, the window reads a column instead of its
+   transpose, or the cycle loop never returns to its start cell *)
+Theorem tip_on_proper_window_refuted :
+  let H := [[1; 2; 3; 4; 5; 6; 7; 8; 9]] in
+  let b := new_mat 0 3 3 in
+  slice_guard 3 3 0 3 0 2 /\ slice_guard 3 3 0 1 0 3 /\ slice_guard 3 3 0 2 0 2 /\
+  wf_in H (DenseP.SLICE b 0 3 0 2) /\ wf_in H (DenseP.SLICE b 0 1 0 3) /\ wf_in H (DenseP.SLICE b 0 2 0 2) /\
+  (r <- mTip H (DenseP.SLICE b 0 3 0 2) ;; ROk (store_of (fst r) 0)) = ROk [1; 4; 7; 2; 5; 8; 3; 6; 9] /\
+  (r <- mTip H (DenseP.SLICE b 0 1 0 3) ;; read_all false (fst r) (snd r)) = ROk [1; 4; 7] /\
+  read_all false H (DenseP.T (DenseP.SLICE b 0 1 0 3)) = ROk [1; 2; 3] /\
+  mTip H (DenseP.SLICE b 0 2 0 2) = RFuel.
+Proof. exact ProofsTipView.tip_on_proper_window_refuted. Qed.
 Theorem tip_is_natural_in_contents : forall (f : Z -> Z) rows s,
   tip_store rows (map f s) = Rmap (map f) (tip_store rows s).
 Proof. exact tip_store_map. Qed.
